@@ -83,6 +83,14 @@ pub mod vx_facts {
     }
 }
 
+// ---- path canonicalisation as an uninterpreted function (its definition is the business of unit canon / C13)
+pub mod vx_canon {
+    use vstd::prelude::*;
+    verus! {
+    pub uninterp spec fn canon(s: Seq<char>) -> Seq<char>;
+    }
+}
+
 // ---- R9 trusted wrappers (same body as the std call they rename; only the contract is new) ----
 verus! {
 pub trait VxAsDeref {
